@@ -5,19 +5,22 @@
 # simulator is built a second time under /tmp/mutsim against /tmp/wt/mut.
 set -u
 patch="$(realpath "$1")"; shift
-WT=/tmp/wt/mut
-SIM=/tmp/mutsim
+TAG="${MUT_TAG:-mut}"   # MUT_TAG=<name> lets two instances work side by side
+WT=/tmp/wt/$TAG
+SIM=/tmp/${TAG}sim
+OUTD=/tmp/${TAG}_out
+mkdir -p $OUTD
 export CARGO_NET_OFFLINE=true
 mkdir -p /tmp/wt
 if [ ! -d "$WT" ]; then git -C /repo worktree add -f --detach "$WT" HEAD -q || exit 2; fi
 git -C "$WT" checkout -q --detach "$(git -C /repo rev-parse HEAD)" && git -C "$WT" reset -q --hard && git -C "$WT" clean -qfd
-git -C "$WT" apply "$patch" || { echo "patch does not apply"; exit 2; }
+git -C "$WT" apply "$patch" 2>/dev/null || git -C "$WT" apply -C1 "$patch" || { echo "patch does not apply"; exit 2; }   # (-C1: the patch was cut against an earlier commit of /repo)
 mkdir -p "$SIM"
 rsync -a --delete --exclude target /verif/sim/ "$SIM"/
 sed -i "s#/repo/rumqtt#$WT/rumqtt#" "$SIM/Cargo.toml"
 ( cd "$SIM" && cargo build --release --offline 2>&1 | grep -E "^error" -A6 | head -20 )
 for p in "$@"; do
-  ( cd "$SIM" && VERIF_REPLAY_DIR=/tmp/mut_replays VERIF_EVIDENCE_DIR=/tmp/mut_ev timeout 900 ./target/release/verifsim run "$p" quick > /tmp/mut_out_$p.txt 2>&1 )
-  echo "$p exit=$? $(grep -E '^violation|^VIOLATION' /tmp/mut_out_$p.txt | head -2 | cut -c1-260)"
+  ( cd "$SIM" && VERIF_REPLAY_DIR=/tmp/${TAG}_replays VERIF_EVIDENCE_DIR=/tmp/${TAG}_ev timeout 900 ./target/release/verifsim run "$p" quick > $OUTD/$p.txt 2>&1 )
+  echo "$p exit=$? $(grep -E '^violation|^VIOLATION' $OUTD/$p.txt | head -2 | cut -c1-260)"
 done
 git -C "$WT" reset -q --hard
